@@ -130,3 +130,16 @@ claim("C07",
       "lxml with collect_ids=False (xml:id NCName-ness is not part of the property; uniqueness "
       "is checked by the harness); style ids equal to generated region ids are an open finding",
       "DESIGN.md 3/C07")
+claim("C14",
+      "Hypothesis multi-language models -> independent DFXP/SAMI serialisers -> readers "
+      "in-process and in pristine forked children under several PYTHONHASHSEED values and a "
+      "PYCAPTION_DEFAULT_LANG setting; writer outputs parsed independently",
+      "Generated-input search: 1.5k (thorough 40k) DFXP and 1.2k (30k) SAMI multi-language "
+      "documents (divs without xml:lang, tt with/without xml:lang, class- or attribute-mapped "
+      "SAMI languages; interleaved / coinciding / disjoint cue times) read in-process and in "
+      "zygote children (hash seeds {0,1} / {0,1,2,3}, default language zz); 4k (100k) sets "
+      "through DFXP(force) / legacy / single / SAMI / WebVTT(lang) with prefix-related tags "
+      "(en, en-US) side by side; lang= on the four single-language readers.",
+      "at most one div per language; SAMI language codes not prefixes of each other on the "
+      "read side; legacy writer's documented fallback for an unknown force is not judged",
+      "DESIGN.md 3/C14")
